@@ -82,6 +82,16 @@ DESC = {
  'C18-6': '(round 3) `lf` blanks `cursorY-1` instead of the last viewport line (viewportY > 0)',
  'C20-5': '(round 3) `parser.ParseDir` maps ranged over (several annotated files in one directory, repeated builds)',
  'C20-6': '(round 3, dependency) walk callback skips non-regular files: symlinked .go files vanish from the table',
+ 'C03-5': '(round 3, dependency) `Memset` doubling loop exact only for powers of two + one Memset over the whole allocator state (state of 3, 5, 6 ... pages on dirty memory)',
+ 'C03-6': '(round 3) first pass sums bitmap bits and rounds once, second pass word-aligns per pool (>= 2 regions with counts not multiples of 64, total crossing a page)',
+ 'C08-5': '(round 3, dependency) assembly rewritten to `LOCK CMPXCHG` with a stale AX on the retry path (nil yield hook, waiter losing a race)',
+ 'C08-6': '(round 3, dependency) `MOVL $1, BX` hoisted and BX not reloaded after `CALL yieldFn` (hook returning with BX = 0 while the holder releases)',
+ 'C09-5': '(round 3, dependency) spinlock assembly uses `CMPXCHGL` without `LOCK` (two CPUs in the window)',
+ 'C09-6': '(round 3) `FreeFrame` bit offset `frame&63` (pool start not 64-aligned)',
+ 'C11-5': '(round 3, dependency) `findRelative` prefix-skip test `>= \'Z\'` (name starting with Z reached through an absolute or multi-segment path)',
+ 'C11-6': '(round 3) `relocateNamedObjects` returns early when a child needs another pass (forward reference before its multi-segment-named parent)',
+ 'C12-5': '(round 3, dependency) `PeekByte` bounded by the stream, not the package (NameString at a package end followed by a prefix char: hang)',
+ 'C12-6': '(round 3, dependency) `findRelative` length guard `segIndex >= exprLen` (1-3 leftover bytes matching a sibling name: index out of range)',
 }
 def short(vs):
     out = []
